@@ -324,6 +324,251 @@ example :
     (createAll false shared [] [([100, 110, 115], 853), ([100, 110, 115], 443)]).map (bootDial true (fun _ => 0))
       = [([100, 110, 115, 46], 853), ([100, 110, 115, 46], 853)] := by decide
 
+/-! ## DoH / HTTP3: server name and request authority
+
+For `https` / `h3` the TLS server name is what Go's HTTP clients derive from
+the endpoint URL (`URL.Hostname()`, model `urlHostname`), and the requests carry
+the endpoint URL's host. Given the two regenerated facts (the endpoint is the
+string of the URL as the user wrote it; the DoH upstream sends its requests to
+that URL; an IPv6 literal written without brackets gets them back first) the
+server name is the URL host for every form of the grammar: host name / IPv4 /
+bracketed IPv6 with or without port, and bare IPv6. -/
+
+/-- facts the DoH part of the model is read from -/
+def dohKeeps : Bool :=
+  Gen.Facts.c18DohEndpointIsAddrUrl == some true && Gen.Facts.c18DohRequestKeepsEndpointHost == some true
+def dohRestores : Bool := Gen.Facts.c18DohRestoresV6Brackets == some true
+
+theorem doh_guard : Gen.Facts.c18DohEndpointIsAddrUrl = some true ∧
+    Gen.Facts.c18DohRequestKeepsEndpointHost = some true ∧
+    Gen.Facts.c18DohRestoresV6Brackets = some true := ⟨rfl, rfl, rfl⟩
+
+/-- What the theorems assume of `netip.ParseAddr(s)` succeeding with an IPv6
+address: such a string has at least two colons and does not start with a
+bracket (a zone, `::1%x`, may contain anything; the correspondence checks both
+clauses on the real library). -/
+structure V6Contract (isV6 : Bytes → Bool) : Prop where
+  twoColons : ∀ s, s.count colon < 2 → isV6 s = false
+  startsBracket : ∀ s, isV6 (lbr :: s) = false
+
+theorem splitLastColon_none (s : Bytes) (h : colon ∉ s) : splitLastColon s = none := by
+  induction s with
+  | nil => rfl
+  | cons c t ih =>
+    have hc : c ≠ colon := fun e => h (by simp [e])
+    have ht : colon ∉ t := fun m => h (List.mem_cons_of_mem _ m)
+    simp [splitLastColon, ih ht, hc]
+
+theorem splitLastColon_append (h p : Bytes) (hp : colon ∉ p) :
+    splitLastColon (h ++ colon :: p) = some (h, colon :: p) := by
+  induction h with
+  | nil => simp [splitLastColon, splitLastColon_none p hp]
+  | cons c t ih => simp [splitLastColon, ih]
+
+/-- what `splitLastColon` returns is a decomposition at a colon -/
+theorem splitLastColon_some (s a b : Bytes) (h : splitLastColon s = some (a, b)) :
+    s = a ++ b ∧ ∃ b', b = colon :: b' := by
+  induction s generalizing a with
+  | nil => simp [splitLastColon] at h
+  | cons c t ih =>
+    unfold splitLastColon at h
+    cases ht : splitLastColon t with
+    | some ab =>
+      obtain ⟨a', b''⟩ := ab
+      rw [ht] at h
+      simp only [Option.some.injEq, Prod.mk.injEq] at h
+      obtain ⟨ha, hb⟩ := h
+      subst ha; subst hb
+      obtain ⟨e, w⟩ := ih a' ht
+      exact ⟨by simp [← e], w⟩
+    | none =>
+      rw [ht] at h
+      by_cases hc : c = colon
+      · simp only [hc, if_true, Option.some.injEq, Prod.mk.injEq] at h
+        obtain ⟨ha, hb⟩ := h
+        subst ha; subst hb
+        exact ⟨by simp [hc], t, rfl⟩
+      · simp [hc] at h
+
+theorem digits_no_colon (p : Bytes) (hd : p.all isDigit = true) : colon ∉ p := by
+  intro m
+  have := List.all_eq_true.mp hd colon m
+  exact absurd this (by decide)
+
+/-- a host that ends in a character that is neither a digit nor a colon has no port to cut off -/
+theorem stripPort_last (s : Bytes) (x : UInt8) (hl : s.getLast? = some x) (hx : isDigit x = false)
+    (hc : x ≠ colon) : stripPort s = s := by
+  unfold stripPort
+  cases hs : splitLastColon s with
+  | none => rfl
+  | some ab =>
+    obtain ⟨a, b⟩ := ab
+    obtain ⟨e, b', hb⟩ := splitLastColon_some s a b hs
+    subst hb
+    have hv : validOptionalPort (colon :: b') = false := by
+      cases hb' : b' with
+      | nil =>
+        subst hb'
+        rw [e] at hl
+        simp at hl
+        exact absurd hl.symm hc
+      | cons y t =>
+        have hm : x ∈ b' := by
+          rw [e] at hl
+          have : (a ++ colon :: b').getLast? = b'.getLast? := by
+            have : a ++ colon :: b' = (a ++ [colon]) ++ b' := by simp
+            rw [this, List.getLast?_append]
+            cases hg : b'.getLast? with
+            | none => rw [hb'] at hg; simp at hg
+            | some z => simp
+          rw [this] at hl
+          exact List.mem_of_getLast? hl
+        rw [← hb']
+        simp only [validOptionalPort, beq_self_eq_true, Bool.true_and]
+        cases hall : b'.all isDigit with
+        | false => rfl
+        | true =>
+          have := List.all_eq_true.mp hall x hm
+          rw [hx] at this
+          exact absurd this (by decide)
+    simp [hv]
+
+theorem stripPort_port (h p : Bytes) (hd : p.all isDigit = true) : stripPort (h ++ colon :: p) = h := by
+  unfold stripPort
+  rw [splitLastColon_append h p (digits_no_colon p hd)]
+  simp [validOptionalPort, hd]
+
+theorem trimBrackets_noLbr (h : Bytes) (hs : lbr ∉ h) : trimBrackets h = h := by
+  rw [← Refine.C18.tryTrimIpv6Brackets_eq]; exact noSpecial_trim h hs
+
+theorem trimBrackets_brackets (v : Bytes) : trimBrackets (lbr :: v ++ [rbr]) = v := by
+  rw [← Refine.C18.tryTrimIpv6Brackets_eq]; exact trim_brackets v
+
+/-- **`URL.Hostname()` on the grammar**: host name / IPv4 with or without a
+decimal port, bracketed IPv6 (any content) with or without a decimal port. -/
+theorem urlHostname_forms :
+    (∀ h, NoSpecial h → urlHostname h = h) ∧
+    (∀ h p, NoSpecial h → p.all isDigit = true → urlHostname (h ++ colon :: p) = h) ∧
+    (∀ v, urlHostname (lbr :: v ++ [rbr]) = v) ∧
+    (∀ v p, p.all isDigit = true → urlHostname (lbr :: v ++ rbr :: colon :: p) = v) := by
+  refine ⟨?_, ?_, ?_, ?_⟩
+  · intro h hh
+    unfold urlHostname stripPort
+    rw [splitLastColon_none h hh.1]
+    exact trimBrackets_noLbr h hh.2.1
+  · intro h p hh hd
+    unfold urlHostname
+    rw [stripPort_port h p hd]
+    exact trimBrackets_noLbr h hh.2.1
+  · intro v
+    unfold urlHostname
+    have hl : (lbr :: v ++ [rbr]).getLast? = some rbr := by
+      have : lbr :: v ++ [rbr] = (lbr :: v) ++ [rbr] := by simp
+      rw [this, List.getLast?_append]; simp
+    rw [stripPort_last (lbr :: v ++ [rbr]) rbr hl (by decide) (by decide)]
+    exact trimBrackets_brackets v
+  · intro v p hd
+    unfold urlHostname
+    have e : lbr :: v ++ rbr :: colon :: p = (lbr :: v ++ [rbr]) ++ colon :: p := by simp
+    rw [e, stripPort_port _ p hd]
+    exact trimBrackets_brackets v
+
+theorem count_colon_plain (h p : Bytes) (hh : colon ∉ h) (hp : colon ∉ p) :
+    (h ++ colon :: p).count colon < 2 := by
+  have a : h.count colon = 0 := List.count_eq_zero.mpr hh
+  have b : p.count colon = 0 := List.count_eq_zero.mpr hp
+  simp [List.count_append, a, b]
+
+/-- **DoH / HTTP3: the TLS server name is the URL host** (without port, without
+brackets), whatever the unknown parts are - for host names and IPv4, for
+bracketed IPv6, and for an IPv6 literal written WITHOUT brackets (whose
+brackets the code restores before the endpoint is rendered; finding F15).
+**The requests are addressed to the URL host**: exactly as written, an IPv6
+literal in brackets whether or not the user wrote them. -/
+theorem doh_server_name (other : Bytes → Bytes) {isV6 : Bytes → Bool} (V : V6Contract isV6) :
+    (∀ h, NoSpecial h → dohServerName dohKeeps dohRestores other isV6 h = h) ∧
+    (∀ h p, NoSpecial h → p.all isDigit = true →
+      dohServerName dohKeeps dohRestores other isV6 (h ++ colon :: p) = h) ∧
+    (∀ v, dohServerName dohKeeps dohRestores other isV6 (lbr :: v ++ [rbr]) = v) ∧
+    (∀ v p, p.all isDigit = true →
+      dohServerName dohKeeps dohRestores other isV6 (lbr :: v ++ rbr :: colon :: p) = v) ∧
+    (∀ v, isV6 v = true → dohServerName dohKeeps dohRestores other isV6 v = v) ∧
+    (∀ u, isV6 u = false → dohEndpointHost dohKeeps dohRestores other isV6 u = u) ∧
+    (∀ v, isV6 v = true → dohEndpointHost dohKeeps dohRestores other isV6 v = lbr :: v ++ [rbr]) := by
+  have e : dohKeeps = true := rfl
+  have e' : dohRestores = true := rfl
+  rw [e, e']
+  simp only [dohServerName, dohEndpointHost, if_true, Bool.true_and]
+  refine ⟨?_, ?_, ?_, ?_, ?_, ?_, ?_⟩
+  · intro h hh
+    have : isV6 h = false := V.twoColons h (by rw [List.count_eq_zero.mpr hh.1]; decide)
+    simp only [this, Bool.false_eq_true, if_false]
+    exact urlHostname_forms.1 h hh
+  · intro h p hh hd
+    have : isV6 (h ++ colon :: p) = false :=
+      V.twoColons _ (count_colon_plain h p hh.1 (digits_no_colon p hd))
+    simp only [this, Bool.false_eq_true, if_false]
+    exact urlHostname_forms.2.1 h p hh hd
+  · intro v
+    have : isV6 (lbr :: v ++ [rbr]) = false := V.startsBracket _
+    simp only [this, Bool.false_eq_true, if_false]
+    exact urlHostname_forms.2.2.1 v
+  · intro v p hd
+    have : isV6 (lbr :: v ++ rbr :: colon :: p) = false := V.startsBracket _
+    simp only [this, Bool.false_eq_true, if_false]
+    exact urlHostname_forms.2.2.2 v p hd
+  · intro v hv
+    simp only [hv, if_true]
+    exact urlHostname_forms.2.2.1 v
+  · intro u hu; simp [hu]
+  · intro v hv; simp [hv]
+
+/-- DoH and DoT agree: on every form above the server name Go's HTTP clients
+derive equals the one `NewUpstream` computes itself for `tls` / `quic`. -/
+theorem doh_server_name_eq_tls (C : SplitContract split) (other : Bytes → Bytes)
+    {isV6 : Bytes → Bool} (V : V6Contract isV6) :
+    (∀ h, NoSpecial h → dohServerName dohKeeps dohRestores other isV6 h = serverName split h) ∧
+    (∀ h p, NoSpecial h → NoSpecial p → p.all isDigit = true →
+      dohServerName dohKeeps dohRestores other isV6 (h ++ colon :: p) = serverName split (h ++ colon :: p)) ∧
+    (∀ v, NoBracket v → 2 ≤ v.count colon →
+      dohServerName dohKeeps dohRestores other isV6 (lbr :: v ++ [rbr]) = serverName split (lbr :: v ++ [rbr])) ∧
+    (∀ v p, NoBracket v → NoSpecial p → p ≠ [] → p.all isDigit = true →
+      dohServerName dohKeeps dohRestores other isV6 (lbr :: v ++ rbr :: colon :: p)
+        = serverName split (lbr :: v ++ rbr :: colon :: p)) ∧
+    (∀ v, NoBracket v → 2 ≤ v.count colon → isV6 v = true →
+      dohServerName dohKeeps dohRestores other isV6 v = serverName split v) := by
+  have d := doh_server_name other V
+  have t := sni_default C
+  refine ⟨?_, ?_, ?_, ?_, ?_⟩
+  · intro h hh; rw [d.1 h hh, t.1 h hh]
+  · intro h p hh hp hd; rw [d.2.1 h p hh hd, t.2.1 h p hh hp]
+  · intro v hv h2; rw [d.2.2.1 v, t.2.2.1 v hv h2]
+  · intro v p hv hp hpne hd; rw [d.2.2.2.1 v p hd, t.2.2.2 v p hv hp hpne]
+  · intro v hv h2 h6
+    rw [d.2.2.2.2.1 v h6]
+    unfold serverName tryRemovePort
+    rw [noSpecial_trim v hv.1]
+    simp [C.bareV6 v hv h2]
+
+/-- Non-vacuity of the first hypothesis: if the endpoint is built from the
+bracket-trimmed host instead, `https://[2001:db8::1]/...` gets the server name
+`2001:db8:` (and port 1). -/
+example : dohServerName false false Gen.tryTrimIpv6Brackets (fun _ => false)
+    [91, 50, 48, 48, 49, 58, 100, 98, 56, 58, 58, 49, 93] = [50, 48, 48, 49, 58, 100, 98, 56, 58] := by decide
+example : dohServerName true true id (fun _ => false)
+    [91, 50, 48, 48, 49, 58, 100, 98, 56, 58, 58, 49, 93, 58, 56, 52, 52, 51]
+    = [50, 48, 48, 49, 58, 100, 98, 56, 58, 58, 49] := by decide  -- "[2001:db8::1]:8443"
+/-- Non-vacuity of the third fact, and a witness of finding F15 (the tree
+before fix bb593cc): without the bracket restoration a BARE IPv6 URL host
+`https://2001:db8::1/...`, which `net/url` accepts, has `URL.Hostname()`
+`2001:db8:`; with it the server name is the address. -/
+example : dohServerName true false id (fun _ => true) [50, 48, 48, 49, 58, 100, 98, 56, 58, 58, 49]
+    = [50, 48, 48, 49, 58, 100, 98, 56, 58] := by decide
+example : dohServerName true true id (fun _ => true) [50, 48, 48, 49, 58, 100, 98, 56, 58, 58, 49]
+    = [50, 48, 48, 49, 58, 100, 98, 56, 58, 58, 49] := by decide
+example : dohEndpointHost true true id (fun _ => true) [50, 48, 48, 49, 58, 100, 98, 56, 58, 58, 49]
+    = [91, 50, 48, 48, 49, 58, 100, 98, 56, 58, 58, 49, 93] := by decide
+
 /-! Non-vacuity: the executable model of SplitHostPort on one instance of every
 contract clause, and the targets of concrete addresses. "2001:db8::1" etc. -/
 -- byte strings below are the UTF-8 codes of the quoted text
